@@ -1581,6 +1581,17 @@ class Interp:
                 _, cp, items, closed = stt.heap[ch.obj]
                 stt.heap[ch.obj] = ('CH', cp, items + (v,), closed)
             return (mask(idx, 64), ok) + tuple(vals)
+        if not ready and X['blocking']:
+            # nothing ready: time passes until the earliest deadline among the contexts selected on
+            import intrinsics_lib
+            objs = {}
+            for i, sd in enumerate(states):
+                ch = s.operand(fr, A[2 * i], st)
+                if ch is not None and sd['dir'] == 'recv':
+                    objs[ch.obj] = i
+            fired = intrinsics_lib.ctx_expire_earliest(st, set(objs))
+            if fired is not None:
+                ready.append(objs[fired])
         if not ready:
             if X['blocking']:
                 s.violated(st, s.lbl(fr, ins, 'would-block-select'))
